@@ -8,7 +8,7 @@
     lr.Parser.Parse / ParseAndBuildAST, for every grammar, table and input. *)
 From Coq Require Import List ZArith.
 From Algo.Grammar Require Import CFG.
-From Algo.C11 Require Import Model ModelPrec ModelSLR ModelLR1 Spec Proofs ProofsTerm ProofsOracle ProofsPrec ProofsPrecExpr ProofsLR0 ProofsSLR ProofsCLR ProofsLALR ProofsChain ProofsChain2.
+From Algo.C11 Require Import Model ModelPrec ModelSLR ModelLR1 Spec Proofs ProofsTerm ProofsOracle ProofsPrec ProofsPrecExpr ProofsLR0 ProofsSLR ProofsCLR ProofsLALR ProofsChain ProofsChain2 ProofsFuel.
 Import ListNotations.
 
 (** Callbacks.  [Parse(tokenF, prodF)] takes two optional callbacks (either may be nil) and
@@ -115,7 +115,7 @@ Proof. intros ops ls o1 o2. apply prec_grouping. Qed.
       ([C11_slr/lalr/clr_construction_ok]); the Go tables are certified per instance and are
       compared, cell by cell up to state renumbering, with the modelled tables on every run;
     - the chain SLR ok => LALR ok => LR(1) ok: THEOREM on the modelled constructions
-      ([C11_chain], explicit fuel hypotheses), tied to the Go code by the same table equality and
+      ([C11_chain]; only premise: the LR(1) collection completes within the given fuel), tied to the Go code by the same table equality and
       additionally checked per instance on the Go verdicts;
     - completeness (every sentence is accepted; "rejected => not a sentence"), hence also
       agreement of the accepted languages: NOT proved (it needs the LR correctness theorem: valid
@@ -322,34 +322,39 @@ Proof.
   - unfold build_lalr, finish, lalr_raw in H. rewrite EC in H. discriminate.
 Qed.
 
-(** SLR conflict-free implies LALR conflict-free (no precedence declarations), for every grammar
-    whose body symbols and start symbol are declared ([valid_syms]).  Explicit fuel hypotheses:
-    the round-robin FOLLOW computation reached its fixpoint ([follow_fix_ok], a boolean that the
-    check evaluates on every grammar), and the LR(1) collection was completed within [fuel1]
-    (otherwise the LALR construction answers BuiltNoFuel, not a conflict).  Proof: every LR(1)
-    state has its cores inside a state of the LR(0) collection (CLOSURE0 is closed: its fuel is
-    proved sufficient), every item lookahead is in FOLLOW of the item's head (FOLLOW is closed
-    under its rules at a fixpoint), so two different actions in a cell of a merged class are two
-    different actions in a cell of that LR(0) state. *)
+(** SLR conflict-free implies LALR conflict-free (no precedence declarations), for every valid
+    grammar ([valid_grammar], what CFG.Verify demands: body symbols and start symbol declared,
+    every declared non-terminal has a production).  The only fuel premise left is that the LR(1)
+    collection was completed within [fuel1] (the model takes that fuel as a parameter; otherwise
+    the LALR construction answers BuiltNoFuel, not a conflict).  Discharged fuels: CLOSURE0 is
+    closed, and the round-robin FIRST and FOLLOW iterations stop at fixpoints
+    ([follow_fix_ok_aug]: the environments are bounded by |P|(|T|+2) entries).  Proof: every
+    LR(1) state has its cores inside a state of the LR(0) collection, every item lookahead is in
+    FOLLOW of the item's head (FOLLOW is closed under its rules at a fixpoint), so two different
+    actions in a cell of a merged class are two different actions in a cell of that LR(0) state. *)
+Theorem C11_follow_fuel_suffices :
+  forall G : gram, valid_grammar G -> follow_fix_ok (augment G) = true.
+Proof. exact follow_fix_ok_aug. Qed.
+
 Theorem C11_slr_ok_implies_lalr_ok :
   forall (G : gram) (fuel0 fuel1 : nat) (t0 : table) (C1 : list (list item1)),
-    valid_syms G -> follow_fix_ok (augment G) = true ->
+    valid_grammar G ->
     build_slr fuel0 G [] = BuiltOk t0 -> canonical1 fuel1 G = Some C1 ->
     exists t1, build_lalr fuel1 G [] = BuiltOk t1.
 Proof.
-  intros G fuel0 fuel1 t0 C1 Hv Hf HS HC. apply Nat.eqb_eq in Hf.
-  exact (slr_ok_lalr_ok G Hv Hf fuel0 fuel1 C1 HC t0 HS).
+  intros G fuel0 fuel1 t0 C1 Hv HS HC. pose proof (follow_fix_ok_aug G Hv) as Hf. apply Nat.eqb_eq in Hf.
+  exact (slr_ok_lalr_ok G (proj1 Hv) Hf fuel0 fuel1 C1 HC t0 HS).
 Qed.
 
 (** The chain on the modelled constructions: SLR ok => LALR ok => canonical LR(1) ok. *)
 Theorem C11_chain :
   forall (G : gram) (fuel0 fuel1 : nat) (t0 : table) (C1 : list (list item1)),
-    valid_syms G -> follow_fix_ok (augment G) = true ->
+    valid_grammar G ->
     build_slr fuel0 G [] = BuiltOk t0 -> canonical1 fuel1 G = Some C1 ->
     (exists t1, build_lalr fuel1 G [] = BuiltOk t1) /\ (exists t2, build_clr fuel1 G [] = BuiltOk t2).
 Proof.
-  intros G fuel0 fuel1 t0 C1 Hv Hf HS HC.
-  destruct (C11_slr_ok_implies_lalr_ok G fuel0 fuel1 t0 C1 Hv Hf HS HC) as [t1 H1].
+  intros G fuel0 fuel1 t0 C1 Hv HS HC.
+  destruct (C11_slr_ok_implies_lalr_ok G fuel0 fuel1 t0 C1 Hv HS HC) as [t1 H1].
   split; [eauto|]. exact (C11_lalr_ok_implies_clr_ok G fuel1 t1 H1).
 Qed.
 
@@ -434,6 +439,7 @@ Print Assumptions C11_clr_parser_sound.
 Print Assumptions C11_lalr_construction_ok.
 Print Assumptions C11_lalr_parser_sound.
 Print Assumptions C11_lalr_ok_implies_clr_ok.
+Print Assumptions C11_follow_fuel_suffices.
 Print Assumptions C11_slr_ok_implies_lalr_ok.
 Print Assumptions C11_chain.
 Print Assumptions C11_d11a_unrepaired_table_refuted.
